@@ -1545,7 +1545,9 @@ func ruleParsedRepeatBounded(c *eng.Ctx) {
 				}
 			}
 			origin := ""
-			sort.Slice(fields, func(i, j int) bool { return fields[i].st+fmt.Sprint(fields[i].idx) < fields[j].st+fmt.Sprint(fields[j].idx) })
+			sort.Slice(fields, func(i, j int) bool {
+				return fields[i].st+fmt.Sprint(fields[i].idx) < fields[j].st+fmt.Sprint(fields[j].idx)
+			})
 			for _, fk := range fields {
 				if o := uncappedOrigin(fk, map[fkey]bool{}); o != "" && origin == "" {
 					origin = o
